@@ -18,12 +18,13 @@
 #define CONTRACTS_REGISTERS_BLOCK_H
 #include "spec/registers-block.h"
 
-#define RB_U32(x) ((uint32_t)(x))
-/* the code's (wrapping) end of an area / a register */
-#define RB_A_END32(a) RB_U32((a)->base + (a)->size)
-#define RB_E_END32(e) RB_U32((e)->address + RB_WORDS((e)->type))
-#define RB_A_NOWRAP(a) (RB_A_END(a) <= 0xffffffffull)
-#define RB_E_NOWRAP(e) (RB_E_END(e) <= 0xffffffffull)
+#if VERIF_IS_NATIVE
+#define RB_SAME_OBJECT(p, q) 0
+#else
+#define RB_SAME_OBJECT(p, q) __CPROVER_same_object(p, q)
+#endif
+#define RB_INITIALISED(t) (((t)->flags & REG_TF_INITIALISED) != 0)
+#define RB_BE(t) (((t)->flags & REG_TF_BIG_ENDIAN) != 0)
 #define RB_AREA_R_OK(a) __CPROVER_r_ok((a), sizeof(RegisterArea))
 #define RB_ENTRY_R_OK(e) __CPROVER_r_ok((e), sizeof(RegisterEntry))
 
@@ -65,7 +66,6 @@ __CPROVER_ensures(__CPROVER_return_value == RB_AREA_READABLE(a))
 ;
 
 /* bit-precise; equals RB_A_HAS(a, addr) when RB_A_NOWRAP(a) */
-#define RB_PART_OF32(a, addr) ((a)->base <= (addr) && !(RB_A_END32(a) <= (addr)))
 static bool ra_addr_is_part_of(RegisterArea *a, RegisterAddress addr)
 __CPROVER_requires(RB_AREA_R_OK(a))
 __CPROVER_assigns()
@@ -79,7 +79,6 @@ __CPROVER_assigns()
 __CPROVER_ensures(__CPROVER_return_value == RB_PART_OF32(a, e->address))
 ;
 
-#define RB_FITS32(a, e) (RB_E_END32(e) <= RB_A_END32(a))
 static bool ra_reg_fits_into(RegisterArea *a, RegisterEntry *e)
 __CPROVER_requires(RB_AREA_R_OK(a) && RB_ENTRY_R_OK(e) && RB_TYPE_IS_ENUM(e->type))
 __CPROVER_assigns()
@@ -89,8 +88,6 @@ __CPROVER_ensures(IMPLIES(RB_A_NOWRAP(a) && RB_E_NOWRAP(e) && RB_A_HAS(a, e->add
 ;
 
 /* -1: area wholly below [addr, addr+n), +1: wholly above, 0: touched */
-#define RB_RANGE_TOUCHES32(end32, start, addr, n) \
-  (((end32) <= (addr)) ? -1 : ((RB_U32((addr) + (n)) <= (start)) ? 1 : 0))
 static inline int ra_range_touches(RegisterArea *a, RegisterAddress addr, RegisterOffset n)
 __CPROVER_requires(RB_AREA_R_OK(a))
 __CPROVER_assigns()
@@ -119,6 +116,100 @@ __CPROVER_assigns()
 __CPROVER_ensures(__CPROVER_return_value == RB_WORDS(e->type))
 ;
 
+/* ---- layer 2: walkers with ghost-index loop contracts (tier A) ----------
+ * g_rb_na / g_rb_ne: position of A terminator in the list handed to the
+ * counter (any one; the contract holds for every choice, a caller picks the
+ * position it knows).  g_j: arbitrary index (universal statement). */
+extern size_t g_rb_na, g_rb_ne;
+
+static AreaHandle reg_count_areas(RegisterArea *a)
+__CPROVER_requires(g_rb_na <= AREA_HANDLE_MAX)
+__CPROVER_requires(__CPROVER_r_ok(a, (g_rb_na + 1) * sizeof(RegisterArea)))
+__CPROVER_requires(RB_AREA_IS_END(&a[g_rb_na]))
+__CPROVER_assigns()
+/* the first terminator: nothing before it is one */
+__CPROVER_ensures(__CPROVER_return_value <= g_rb_na)
+__CPROVER_ensures(__CPROVER_return_value == AREA_HANDLE_MAX || RB_AREA_IS_END(&a[__CPROVER_return_value]))
+__CPROVER_ensures(IMPLIES(g_j < __CPROVER_return_value, !RB_AREA_IS_END(&a[g_j])))
+;
+
+static RegisterHandle reg_count_entries(RegisterEntry *e)
+__CPROVER_requires(g_rb_ne <= REGISTER_HANDLE_MAX)
+__CPROVER_requires(__CPROVER_r_ok(e, (g_rb_ne + 1) * sizeof(RegisterEntry)))
+__CPROVER_requires(RB_ENTRY_IS_END(&e[g_rb_ne]))
+__CPROVER_assigns()
+__CPROVER_ensures(__CPROVER_return_value <= g_rb_ne)
+__CPROVER_ensures(__CPROVER_return_value == REGISTER_HANDLE_MAX || RB_ENTRY_IS_END(&e[__CPROVER_return_value]))
+__CPROVER_ensures(IMPLIES(g_j < __CPROVER_return_value, !RB_ENTRY_IS_END(&e[g_j])))
+;
+
+/* first area (in list order) whose bit-precise address test holds, or areas */
+static AreaHandle ra_find_area_by_addr(RegisterTable *t, RegisterAddress addr)
+__CPROVER_requires(__CPROVER_r_ok(t, sizeof(RegisterTable)))
+__CPROVER_requires(__CPROVER_r_ok(t->area, (size_t)t->areas * sizeof(RegisterArea)))
+__CPROVER_assigns()
+__CPROVER_ensures(__CPROVER_return_value <= t->areas)
+__CPROVER_ensures(IMPLIES(__CPROVER_return_value < t->areas, RB_PART_OF32(&t->area[__CPROVER_return_value], addr)))
+__CPROVER_ensures(IMPLIES(g_j < __CPROVER_return_value, !RB_PART_OF32(&t->area[g_j], addr)))
+;
+
+/* first register at or behind `start` whose address is not in area a */
+static RegisterHandle ra_first_entry_of_next(RegisterTable *t, RegisterArea *a, RegisterHandle start)
+__CPROVER_requires(__CPROVER_r_ok(t, sizeof(RegisterTable)) && RB_AREA_R_OK(a))
+__CPROVER_requires(__CPROVER_r_ok(t->entry, (size_t)t->entries * sizeof(RegisterEntry)))
+__CPROVER_assigns()
+__CPROVER_ensures(IMPLIES(start <= t->entries, start <= __CPROVER_return_value && __CPROVER_return_value <= t->entries))
+__CPROVER_ensures(IMPLIES(start > t->entries, __CPROVER_return_value == t->entries))
+__CPROVER_ensures(IMPLIES(__CPROVER_return_value < t->entries,
+    !RB_PART_OF32(a, t->entry[__CPROVER_return_value].address)))
+__CPROVER_ensures(IMPLIES(start <= g_j && g_j < __CPROVER_return_value, RB_PART_OF32(a, t->entry[g_j].address)))
+;
+
+/* ---- register_set in the calling context of register_init ----------------
+ * LOCAL contract (the general one, for every table state and handle, is
+ * C01's in contracts/registers-typed.h; the two headers are never in one
+ * unit).  It is enforced against the real register_set / register_setx /
+ * rv_validate / serialisers / reg_mem_write by target c04_register_set and
+ * used by replacement in register_init. */
+/* written as a function with locals: a macro that repeats t->entry[idx].area->...
+ * a dozen times costs the symbolic execution minutes (CBMC 6.11 creates a
+ * fresh failure object per textual dereference, quadratically) */
+static inline bool rb_set_context_ok(const RegisterTable *t, RegisterHandle idx)
+{
+  const RegisterEntry *e = &t->entry[idx];
+  if (!RB_ENTRY_R_OK(e) || !RB_TYPE_IS_VALUE(e->type) || !RB_CHECK_IS_ENUM(e->check.type))
+    return false;
+  if (e->check.type == REGV_TYPE_CALLBACK && e->check.arg.cb != st_validator)
+    return false;
+  const RegisterArea *a = e->area;
+  if (!RB_AREA_R_OK(a) || !(a->write == NULL || a->write == reg_mem_write))
+    return false;
+  if (e->offset > a->size || RB_WORDS(e->type) > a->size - e->offset)
+    return false;
+  if (a->write != NULL) {
+    const RegisterAtom *m = a->mem;
+    if (!__CPROVER_rw_ok(m, (size_t)a->size * sizeof(RegisterAtom)))
+      return false;
+    if (RB_SAME_OBJECT(m, t) || RB_SAME_OBJECT(m, t->entry) || RB_SAME_OBJECT(m, a))
+      return false;
+  }
+  return true;
+}
+
+RegisterAccess register_set(RegisterTable *t, const RegisterHandle idx, const RegisterValue v)
+__CPROVER_requires(__CPROVER_r_ok(t, sizeof(RegisterTable)) && RB_INITIALISED(t) && idx < t->entries)
+__CPROVER_requires(rb_set_context_ok(t, idx))
+__CPROVER_assigns(
+    rb_set_accepts(t, idx, v) && SPEC_REG_W1(t->entry[idx].type):
+      __CPROVER_object_upto(t->entry[idx].area->mem + t->entry[idx].offset, 1u * sizeof(RegisterAtom));
+    rb_set_accepts(t, idx, v) && SPEC_REG_W2(t->entry[idx].type):
+      __CPROVER_object_upto(t->entry[idx].area->mem + t->entry[idx].offset, 2u * sizeof(RegisterAtom));
+    rb_set_accepts(t, idx, v) && SPEC_REG_W4(t->entry[idx].type):
+      __CPROVER_object_upto(t->entry[idx].area->mem + t->entry[idx].offset, 4u * sizeof(RegisterAtom)))
+__CPROVER_ensures((__CPROVER_return_value.code == REG_ACCESS_SUCCESS) == rb_set_accepts(t, idx, v))
+__CPROVER_ensures(IMPLIES(__CPROVER_return_value.code == REG_ACCESS_SUCCESS, rb_set_stored(t, idx, v)))
+;
+
 /* ---- ghost record: expected outcomes computed by the spec functions ---- */
 struct rb_ghost {
   /* the table description as handed to the function under proof */
@@ -130,8 +221,6 @@ struct rb_ghost {
 };
 extern struct rb_ghost g_rb;
 
-#define RB_INITIALISED(t) (((t)->flags & REG_TF_INITIALISED) != 0)
-#define RB_BE(t) (((t)->flags & REG_TF_BIG_ENDIAN) != 0)
 
 /* ---- C04: register_init ------------------------------------------------
  * Statement: succeeds exactly for the well-formed descriptions, otherwise
@@ -152,7 +241,7 @@ __CPROVER_requires(g_rb.na <= RB_NA && g_rb.ne <= RB_NE)
 __CPROVER_requires(__CPROVER_rw_ok(t->area, (g_rb.na + 1) * sizeof(RegisterArea)))
 __CPROVER_requires(__CPROVER_rw_ok(t->entry, (g_rb.ne + 1) * sizeof(RegisterEntry)))
 __CPROVER_requires(RB_AREA_IS_END(&t->area[g_rb.na]) && RB_ENTRY_IS_END(&t->entry[g_rb.ne]))
-__CPROVER_assigns(t->flags, t->areas, t->entries, st_wr_verdict;
+__CPROVER_assigns(t->flags, t->areas, t->entries;
     g_rb.na > 0: __CPROVER_object_upto(t->area, g_rb.na * sizeof(RegisterArea));
     g_rb.ne > 0: __CPROVER_object_upto(t->entry, g_rb.ne * sizeof(RegisterEntry));
     RB_ASSIGN_MEM(t, 0); RB_ASSIGN_MEM(t, 1); RB_ASSIGN_MEM(t, 2); RB_ASSIGN_MEM(t, 3); RB_ASSIGN_MEM(t, 4); RB_ASSIGN_MEM(t, 5))
